@@ -164,6 +164,8 @@ pub struct Node<'gc> {
     pub leaf: Lock<Option<LeafGc<'gc>>>,
     pub wl: Lock<Option<GcWeak<'gc, RefLock<Leaf>>>>,
     pub cell: Lock<Option<CellRef<'gc>>>,
+    /// a handle issued by ANOTHER arena's root set, owned by this heap value (product scope, C20 / C14)
+    pub held: std::cell::RefCell<Option<H>>,
 }
 unsafe impl<'gc> Collect<'gc> for Node<'gc> {
     fn trace<T: Trace<'gc>>(&self, cc: &mut T) {
@@ -248,6 +250,8 @@ pub struct SObj {
     pub freed: bool,
     /// allocated while the arena reported Sweeping, in the sweep that is still running
     pub born_sweeping: bool,
+    /// holds handle `held` of the other arena (product scope)
+    pub held: Option<u8>,
 }
 
 #[derive(Clone, Debug, Default)]
@@ -354,6 +358,11 @@ pub struct World {
     pub addrs: Vec<(usize, u8)>,
     pub set_addrs: [usize; 2],
     pub hs: [Option<H>; 3],
+    /// handle lives inside a heap value of the other arena (product scope): where it is
+    pub lent: [Option<*const H>; 3],
+    /// product scope plumbing for `Lend`: the handle coming in / where it ended up
+    pub incoming: Option<H>,
+    pub lent_out: Option<*const H>,
     // ---- per-cycle bookkeeping for C07 ----
     pub mutated: bool,
     pub resurrected: Vec<u8>,
@@ -373,6 +382,17 @@ pub struct World {
 }
 
 impl World {
+    /// The live handle `hi`, wherever it is owned (by the harness, or by a heap value of the other arena).
+    pub fn href(&self, hi: usize) -> Option<&H> {
+        match (&self.hs[hi], self.lent[hi]) {
+            (Some(h), _) => Some(h),
+            // SAFETY (harness): the pointer is into a Node of the other arena that the shadow says is
+            // undestructed; the product clears `lent` as soon as the holder's destructor is logged, and
+            // the tracking allocator quarantines released blocks for the rest of the execution.
+            (None, Some(p)) => Some(unsafe { &*p }),
+            (None, None) => None,
+        }
+    }
     pub fn new(sc: Scope, base: u32) -> World {
         DYNWEAK.with(|d| d.set(sc.dynweak));
         let nsets = sc.sets as usize;
@@ -403,6 +423,9 @@ impl World {
             addrs: Vec::new(),
             set_addrs,
             hs: [None, None, None],
+            lent: [None, None, None],
+            incoming: None,
+            lent_out: None,
             mutated: false,
             resurrected: vec![],
             cycle_prot: vec![],
@@ -432,7 +455,7 @@ impl World {
 
     /// New shadow object; returns its local id.
     pub fn alloc_id(&mut self, kind: u8) -> u8 {
-        self.sh.objs.push(SObj { kind, s: [None; 2], w: None, leaf: None, wl: None, cell: None, dropped: false, freed: false, born_sweeping: false });
+        self.sh.objs.push(SObj { kind, s: [None; 2], w: None, leaf: None, wl: None, cell: None, dropped: false, freed: false, born_sweeping: false, held: None });
         assert!(self.sh.objs.len() < 120, "harness: id space exhausted");
         (self.sh.objs.len() - 1) as u8
     }
@@ -511,7 +534,7 @@ impl World {
         }
         for (hi, h) in self.sh.handles.iter().enumerate() {
             if let Some((t, set, _)) = h {
-                let hr = self.hs[hi].as_ref().expect("handle");
+                let hr = self.href(hi).expect("handle");
                 let set = root.sets[*set as usize].expect("set");
                 match set.try_fetch(hr) {
                     Ok(g) => st.push((*t, Obj::Node(g))),
@@ -739,8 +762,8 @@ impl World {
     pub fn canon(&self, v: &mut Vec<u8>) {
         let Some(arena) = self.arena.as_ref() else {
             v.push(0xEE);
-            for h in &self.sh.handles {
-                v.push(h.is_some() as u8);
+            for (h, l) in self.sh.handles.iter().zip(&self.lent) {
+                v.push(h.is_some() as u8 | (l.is_some() as u8) << 1);
             }
             return;
         };
@@ -789,6 +812,9 @@ impl World {
                 Some(id) if id < 120 => {
                     let so = &self.sh.objs[id as usize];
                     v.extend([flags, so.kind, p(so.s[0]), p(so.s[1]), p(so.w), p(so.leaf), p(so.wl), p(so.cell)]);
+                    if let Some(h) = so.held {
+                        v.extend([0xB0, h]);
+                    }
                 }
                 Some(id) => v.extend([flags, 0x70 + (id - 120)]),
                 None => v.extend([flags, 0x7f]),
@@ -809,6 +835,9 @@ impl World {
                     None => v.push(0),
                     Some((t, set, slot)) => v.extend([1, p(Some(*t)), *set, *slot]),
                 }
+            }
+            for l in &self.lent {
+                v.push(l.is_some() as u8);
             }
             arena.mutate(|_, root| {
                 for k in 0..self.sc.sets as usize {
